@@ -556,6 +556,73 @@ func (c *Check) paramGettersExact(rule string, keys ...string) {
 	c.req(n == len(keys), rule, "parameter-getters", token.NoPos, fmt.Sprintf("%d of %d parameter getters found", n, len(keys)))
 }
 
+// paramSetExact: the keeper function that assembles the whole parameter set (the parameters query answers with it and
+// the genesis export writes it out) gives every field of types.Params the stored value of the like-named parameter:
+// field F is the result of the getter that reads key KeyF, or a direct read of KeyF, and no field is left out.
+func (c *Check) paramSetExact(rule string) {
+	n := 0
+	for _, f := range c.handFuncs("keeper") {
+		if f.Body == nil || len(f.Res) != 1 || namedStruct(f.Res[0].Type()) != "Params" {
+			continue
+		}
+		if _, ptr := types.Unalias(f.Res[0].Type()).(*types.Pointer); ptr {
+			continue
+		}
+		st, _ := types.Unalias(f.Res[0].Type()).Underlying().(*types.Struct)
+		if st == nil {
+			continue
+		}
+		n++
+		for _, pa := range c.P.PathsOf(f) {
+			if !pa.OK() || len(pa.Ret) != 1 {
+				continue
+			}
+			r := stripConv(pa.Ret[0])
+			if r.Op == "out" && len(r.A) >= 1 && strings.HasSuffix(r.A[0].Op, "Subspace.GetParamSet") {
+				c.ok(rule, unitConstruct(f, "parameter-set"), pa.RetPos, "the whole parameter set is read by Subspace.GetParamSet")
+				continue
+			}
+			if r.Op != "lit" {
+				c.undecided(rule, unitConstruct(f, "parameter-set"), pa.RetPos, "the assembled parameter set is not a Params value built field by field: "+shortTerm(r))
+				continue
+			}
+			have := map[string]*Term{}
+			for _, kv := range r.A[1:] {
+				if len(kv.A) == 1 {
+					have[kv.Op] = kv.A[0]
+				}
+			}
+			for i := 0; i < st.NumFields(); i++ {
+				fld := st.Field(i).Name()
+				key := "Key" + fld
+				v := have[fld]
+				c.Sites++
+				if v == nil {
+					c.fail(rule, unitConstruct(f, "parameter-set:"+fld), pa.RetPos, "field "+fld+" of the assembled parameter set is not filled")
+					continue
+				}
+				v = stripConv(v)
+				ok := false
+				if g := c.paramGetter(key); g != nil && v.Op == g.Name {
+					ok = true
+				}
+				if !ok && v.ContainsAtom("@types."+key) {
+					ok = true
+					v.Walk(func(t *Term) bool {
+						if t.Op == "" && strings.HasPrefix(t.At, "@types.Key") && !t.IsAt("@types."+key) {
+							ok = false
+						}
+						return true
+					})
+				}
+				c.req(ok, rule, unitConstruct(f, "parameter-set:"+fld), pa.RetPos,
+					"field "+fld+" of the assembled parameter set is the stored parameter "+key+": "+shortTerm(v))
+			}
+		}
+	}
+	c.req(n >= 1, rule, "parameter-set-function", token.NoPos, fmt.Sprintf("%d keeper function(s) assemble the whole parameter set", n))
+}
+
 // loopVarAddresses (S3): the module is built with per-loop (not per-iteration) loop variables (go.mod: go 1.14),
 // so a pointer to a range / for-clause variable that is kept beyond the iteration — assigned to a variable
 // declared outside the loop, stored, appended, returned or captured — aliases the next iteration's value.
